@@ -23,6 +23,14 @@ def expected_line(text):
 def gen_text(rng, tier):
     """-> (kind, text)"""
     k = rng.random()
+    if k < 0.001:
+        # a very long stretch of operator / heart / dot characters BEFORE the first command (it has no effect), then a
+        # command with a long area chain of its own: whatever is counted per command must start at the command
+        npre = rng.choice([5000, 13000, 17000, 40000])
+        pre = ''.join(rng.choice(['?', '!', '?!', '♥', '.', ' ', '\n']) for _ in range(npre))
+        nops = rng.choice([3, 50, 1000, 4096])
+        chain = ''.join(rng.choice(['?', '!']) + rng.choice(['', '', '♥', '♡']) for _ in range(nops))
+        return 'huge_preamble', pre + rng.choice(['형', '혀엉..', '흑.']) + chain + rng.choice(['', ' 항.!♥'])
     if k < 0.45:
         return 'random', noise.random_text(rng, 60 if tier == 'quick' else 200)
     if k < 0.6:
@@ -52,7 +60,8 @@ def gen_text(rng, tier):
         # Windows line endings (and other line-ish separators) between short lines that are rich in start / end
         # syllables: locations, and the "is there an end syllable later" rule, must not depend on the separator
         sep = rng.choice(['\r\n', '\r\n', '\r\n', '\n\r', '\r', '\u2028', '\x0b', '\u0085\n'])
-        lines = [''.join(rng.choice(list('혀하흐엉앙앗읏읍윽어.?♥ 형항')) for _ in range(rng.randint(0, 10))) for _ in range(rng.randint(2, 9))]
+        lines = [''.join(rng.choice(list('혀하흐엉앙앗읏읍윽어.?♥ 형항')) for _ in range(rng.randint(0, 10))) if rng.random() < 0.75 else rng.choice(['', ' ', '\t', '   ', ' \t '])
+                 for _ in range(rng.randint(2, 9))]
         return 'crlf_lines', sep.join(lines) + rng.choice(['', sep, '혀', sep + '하어'])
     # multi-line layout for locations
     lines = [noise.random_text(rng, 25).replace('\r', '') for _ in range(rng.randint(2, 8))]
